@@ -4,12 +4,14 @@ EXTENDS XrefHistory, Json
 \* xlow: a cross-reference stream takes its object number before the object stream of its revision (its section
 \*       then ends with the entry of a real object)
 \* sparse: the objects of the history are numbered 1, 4, 7, ... (numbers in between never existed)
+\* nohead: an update that frees objects leaves the entry of object 0 (the head of the free list) alone, so a
+\*         section can begin with the free entry of object 1
 \* compact: object numbers without gaps (so /Size is the number of objects, as in files written by ordinary
 \* producers) or with unused numbers between the document's objects and the containers
-Opts == { [big |-> FALSE, w |-> <<1,2,1>>, flate |-> FALSE, eol |-> "lf",   split |-> FALSE, compact |-> TRUE, sparse |-> FALSE, xlow |-> TRUE],
-          [big |-> TRUE,  w |-> <<1,4,2>>, flate |-> TRUE,  eol |-> "crlf", split |-> TRUE,  compact |-> FALSE, sparse |-> FALSE, xlow |-> FALSE],
-          [big |-> TRUE,  w |-> <<1,3,1>>, flate |-> FALSE, eol |-> "lf",   split |-> TRUE,  compact |-> TRUE, sparse |-> TRUE, xlow |-> FALSE],
-          [big |-> FALSE, w |-> <<2,4,2>>, flate |-> TRUE,  eol |-> "cr",   split |-> FALSE, compact |-> FALSE, sparse |-> TRUE, xlow |-> TRUE] }
+Opts == { [big |-> FALSE, w |-> <<1,2,1>>, flate |-> FALSE, eol |-> "lf",   split |-> FALSE, compact |-> TRUE, sparse |-> FALSE, xlow |-> TRUE, nohead |-> TRUE],
+          [big |-> TRUE,  w |-> <<1,4,2>>, flate |-> TRUE,  eol |-> "crlf", split |-> TRUE,  compact |-> FALSE, sparse |-> FALSE, xlow |-> FALSE, nohead |-> FALSE],
+          [big |-> TRUE,  w |-> <<1,3,1>>, flate |-> FALSE, eol |-> "lf",   split |-> TRUE,  compact |-> TRUE, sparse |-> TRUE, xlow |-> FALSE, nohead |-> TRUE],
+          [big |-> FALSE, w |-> <<2,4,2>>, flate |-> TRUE,  eol |-> "cr",   split |-> FALSE, compact |-> FALSE, sparse |-> TRUE, xlow |-> TRUE, nohead |-> FALSE] }
 NewestMap == [n \in Obj |-> Newest(n)]
 Case(o) == [revs |-> revs, opt |-> o, newest |-> NewestMap]
 \* one case per (history, option set), emitted when the history is opened
